@@ -65,6 +65,12 @@ def run(chk):
                 if "\x00" not in b:
                     cases.append({"id": len(cases), "op": "exec", "script": b, "vars": dict(c0.get("vars", {})), "balances": c0.get("balances", {}),
                                   "meta": c0.get("meta", {}), "failAt": -1})
+        # scripts that need a feature, run WITHOUT it (flag absent, or given as `=false`): the library's
+        # ExperimentalFeature error is what the CLI must show
+        for c0 in [c for c in cases if c.get("flags")][: chk.size(20, 200)]:
+            c1 = {k: v for k, v in c0.items() if k != "flags"}
+            c1["id"] = len(cases)
+            cases.append(c1)
         for c in cases:
             c["store"] = "static"
             c["perStmt"] = False
@@ -74,7 +80,9 @@ def run(chk):
             if "go" not in o:
                 continue
             raw = json.dumps({"script": c["script"], "variables": c["vars"], "balances": bal_json(c), "metadata": c.get("meta", {})})
-            flags = ["--experimental-overdraft-function"] if c.get("flags") else []
+            # the flag bare, or with an explicit value (absent and `=false` mean the same)
+            flags = [["--experimental-overdraft-function"], ["--experimental-overdraft-function=true"]][i % 2] if c.get("flags") else \
+                [[], ["--experimental-overdraft-function=false"]][i % 2]
             d = os.path.join(tmp, "c%d" % i)
             os.makedirs(d)
             open(os.path.join(d, "s.num"), "w").write(c["script"])
